@@ -198,6 +198,74 @@ def check_selection(ctx, binp):
     ctx.extra["selection_impl_vs_model_mismatches"] = mism
 
 
+def find_var_named(pv, name):
+    if isinstance(pv, dict):
+        if pv.get("t") == "var" and pv.get("key") == name:
+            return pv
+        for v in pv.values():
+            r = find_var_named(v, name)
+            if r is not None:
+                return r
+    elif isinstance(pv, list):
+        for v in pv:
+            r = find_var_named(v, name)
+            if r is not None:
+                return r
+    return None
+
+
+def check_references(ctx, binp):
+    """the declared options also apply where the formatted variable is reached through `$t(..)`: directly, with arguments for
+    another variable, through a chain, and in a locale that takes the referenced key from the locale it inherits from"""
+    from . import pipe, proj
+    rng = ctx.rng
+    cases = [c for c in selection_cases(ctx) if c["wf"]]
+    srcs = lean_driver([{"op": "fmt.src", "src": c["src"]} for c in cases])
+    clauses = {}
+    for c, r in zip(cases, srcs):
+        if r["spec"] is not None and r["print"] not in clauses and "{" not in r["print"] and "}" not in r["print"] and '"' not in r["print"]:
+            clauses[r["print"]] = r["spec"]
+    items = sorted(clauses.items())
+    items = rng.sample(items, min(len(items), ctx.budget(160, 1200)))
+    projects = []
+    for k in range(0, len(items), 16):
+        chunk = items[k:k + 16]
+        files = {}
+        for l in ("en", "fr", "fr-CA"):
+            pairs = []
+            for i, (clause, spec) in enumerate(chunk):
+                if l != "fr-CA":
+                    pairs += [(f"a{i}", f"[{l}] {{{{ v, {clause} }}}}"), (f"l{i}", f"{{{{ label }}}}: {{{{ v, {clause} }}}}")]
+                if l != "fr-CA" or rng.chance(1, 2):
+                    pairs += [(f"t{i}", f"Total: $t(a{i})"), (f"w{i}", f"$t(l{i}, {{\"label\": \"VAT\"}})"), (f"c{i}", f"<b>$t(t{i})</b>!")]
+            files[(None, l)] = proj.O(pairs)
+        projects.append({"default": "en", "locales": ["en", "fr", "fr-CA"], "all_locales": ["en", "fr", "fr-CA"], "namespaces": None,
+                         "inherits": {"fr-CA": "fr"}, "files": files, "extra_cfg": False, "meta": {}, "clauses": chunk})
+    outs = pipe.run_projects(ctx, binp, projects)
+    for p, o in zip(projects, outs):
+        ctx.seen({"reference_project": [c for c, _ in p["clauses"]]}, nontrivial=True)
+        if "crash" in o["impl"] or "panic" in o["impl"] or "ok" not in o["ci"]:
+            report_violation(ctx, "formatter-through-reference:rejected", {"case": pipe.project_text(p), "impl": o["impl"].get("result", o["impl"])})
+            continue
+        pipe.compare_model(ctx, "P/pipeline(C18-references)", p, o)
+        ns_out = o["impl"]["result"]["ok"]["nss"][0]
+        for i, (clause, spec) in enumerate(p["clauses"]):
+            for l in p["locales"]:
+                for key in (f"a{i}", f"t{i}", f"w{i}", f"c{i}"):
+                    v = pipe.locale_value_at(ns_out, l, (key,))
+                    if v is None or v.get("t") == "default":
+                        continue
+                    var = find_var_named(v, "var_v")
+                    ctx.count("reference:" + ("direct" if key[0] == "a" else "through-$t"))
+                    if var is None or var["fmt"] != spec:
+                        report_violation(ctx, "formatter-through-reference", {
+                            "case": pipe.project_text(p), "locale": l, "key": key, "clause": clause, "expected_by_spec": spec,
+                            "implementation": var["fmt"] if var else "variable `v` not found in the key's value",
+                            "why": "a key written `$t(target)` renders what the target renders: the target's `{{ v, %s }}` keeps its formatter and options" % clause,
+                            "harness": "parser_h pipeline"})
+                        return
+
+
 # ----------------------------------------------------------------------------- documentation
 
 def check_docs(ctx):
@@ -617,6 +685,7 @@ def run(ctx):
     if locs[0] != LOCALES:
         raise HarnessError("fmt_h locales differ from the check's: " + json.dumps(locs[0]))
     check_selection(ctx, binp)
+    check_references(ctx, binp)
     check_docs(ctx)
     table, table_opts = check_formatting(ctx, binf, binp)
     pool = check_history(ctx, binf, table, table_opts)
